@@ -39,15 +39,79 @@ type vDialScenario struct {
 	Dials     int      `json:"dials"`  // free: concurrent dials
 	TimeoutUs int      `json:"timeoutus"`
 	Network   string   `json:"network"` // free: tcp | tcp6 | unix
+	Second    string   `json:"second"`  // peer multi: what the second address of the host name does: drop | listen
+	Addrs     []string `json:"addrs"`   // controlled: the peers behind the addresses of the host name (1 or 2), in dial order
+}
+
+// a resolver that answers every A query with the given addresses (AAAA: none), for host names with several addresses
+func vFakeResolver(ips [][4]byte) (restore func()) {
+	pc, err := net.ListenPacket("udp", "127.0.0.1:0")
+	if err != nil {
+		return nil
+	}
+	go func() {
+		buf := make([]byte, 1500)
+		for {
+			n, from, err := pc.ReadFrom(buf)
+			if err != nil {
+				return
+			}
+			q := buf[:n]
+			if n < 12 {
+				continue
+			}
+			i := 12
+			for i < n && q[i] != 0 {
+				i += int(q[i]) + 1
+			}
+			i++
+			if i+4 > n {
+				continue
+			}
+			isA := q[i] == 0 && q[i+1] == 1
+			i += 4
+			r := []byte{q[0], q[1], 0x81, 0x80, 0, 1, 0, 0, 0, 0, 0, 0}
+			if isA {
+				r[7] = byte(len(ips))
+			}
+			r = append(r, q[12:i]...)
+			if isA {
+				for _, ip := range ips {
+					r = append(r, 0xc0, 0x0c, 0, 1, 0, 1, 0, 0, 0, 60, 0, 4)
+					r = append(r, ip[:]...)
+				}
+			}
+			pc.WriteTo(r, from)
+		}
+	}()
+	old := net.DefaultResolver
+	dns := pc.LocalAddr().String()
+	net.DefaultResolver = &net.Resolver{PreferGo: true, Dial: func(ctx context.Context, network, _ string) (net.Conn, error) {
+		var d net.Dialer
+		return d.DialContext(ctx, "udp", dns)
+	}}
+	return func() { net.DefaultResolver = old; pc.Close() }
 }
 
 // a listener that never accepts and whose queue is full: SYNs are dropped
 func vDropListener() (addr string, cleanup func()) {
+	return vDropListenerAt([4]byte{127, 0, 0, 1})
+}
+
+func vDropListenerAt(ip [4]byte) (addr string, cleanup func()) {
+	return vDropListenerAtPort(ip, 0)
+}
+
+func vDropListenerAtPort(ip [4]byte, port int) (addr string, cleanup func()) {
 	fd, _ := syscall.Socket(syscall.AF_INET, syscall.SOCK_STREAM, 0)
-	syscall.Bind(fd, &syscall.SockaddrInet4{Addr: [4]byte{127, 0, 0, 1}})
+	syscall.SetsockoptInt(fd, syscall.SOL_SOCKET, syscall.SO_REUSEADDR, 1)
+	if err := syscall.Bind(fd, &syscall.SockaddrInet4{Addr: ip, Port: port}); err != nil {
+		syscall.Close(fd)
+		return "", func() {}
+	}
 	syscall.Listen(fd, 0)
 	sa, _ := syscall.Getsockname(fd)
-	addr = fmt.Sprintf("127.0.0.1:%d", sa.(*syscall.SockaddrInet4).Port)
+	addr = fmt.Sprintf("%d.%d.%d.%d:%d", ip[0], ip[1], ip[2], ip[3], sa.(*syscall.SockaddrInet4).Port)
 	var held []net.Conn
 	for i := 0; i < 3; i++ {
 		if c, err := net.DialTimeout("tcp", addr, 30*time.Millisecond); err == nil {
@@ -96,32 +160,144 @@ func vRunDialControlled(sc *vDialScenario) ([]vOutEvent, map[string]interface{})
 	defer func() { runner.RunTask = oldRunner }()
 	runner.RunTask = func(ctx context.Context, f func()) { s.Go("task", f) }
 	vCur = s
-	verifHook = s.hook
+
+	// the peers: one per address of the target (a literal address, or a host name with two addresses)
+	kinds := sc.Addrs
+	if len(kinds) == 0 {
+		kinds = []string{sc.Peer}
+	}
+	ips := [][4]byte{{127, 0, 0, 1}}
+	target := ""
+	var cleanups []func()
+	defer func() {
+		for _, c := range cleanups {
+			c()
+		}
+	}()
+	fail := func(msg string) ([]vOutEvent, map[string]interface{}) {
+		ev("SetupErr", "", 0, 0, msg)
+		return out, map[string]interface{}{"id": sc.ID, "taken": []string{}}
+	}
+	if len(kinds) == 2 {
+		rr := vFakeResolver([][4]byte{{127, 0, 0, 1}, {127, 0, 0, 2}})
+		if rr == nil {
+			return fail("no resolver")
+		}
+		cleanups = append(cleanups, rr)
+		host := fmt.Sprintf("verif-two-homes-c%d.test.", sc.Seed)
+		lctx, lcancel := context.WithTimeout(context.Background(), 5*time.Second)
+		got, err := net.DefaultResolver.LookupIPAddr(lctx, host)
+		lcancel()
+		if err != nil || len(got) != 2 || got[0].IP.To4() == nil || got[1].IP.To4() == nil {
+			return fail(fmt.Sprint("resolver: ", got, err))
+		}
+		ips = [][4]byte{{}, {}}
+		copy(ips[0][:], got[0].IP.To4())
+		copy(ips[1][:], got[1].IP.To4())
+		target = host
+	}
+	port := 0
+	var rstLns []*net.TCPListener
+	for i, kind := range kinds {
+		ip := ips[i]
+		ipS := fmt.Sprintf("%d.%d.%d.%d", ip[0], ip[1], ip[2], ip[3])
+		switch kind {
+		case "listen", "rst":
+			ln, err := net.Listen("tcp", fmt.Sprintf("%s:%d", ipS, port))
+			if err != nil {
+				return fail(err.Error())
+			}
+			port = ln.Addr().(*net.TCPAddr).Port
+			cleanups = append(cleanups, func() { ln.Close() })
+			if kind == "rst" {
+				rstLns = append(rstLns, ln.(*net.TCPListener))
+			}
+		case "refuse":
+			if port == 0 {
+				l, err := net.Listen("tcp", ipS+":0")
+				if err != nil {
+					return fail(err.Error())
+				}
+				port = l.Addr().(*net.TCPAddr).Port
+				l.Close()
+			}
+		default:
+			a, c := vDropListenerAtPort(ip, port)
+			if a == "" {
+				return fail("drop listener")
+			}
+			_, ps, _ := net.SplitHostPort(a)
+			fmt.Sscan(ps, &port)
+			cleanups = append(cleanups, c)
+		}
+	}
+	if target == "" {
+		target = "127.0.0.1"
+	}
+	target = fmt.Sprintf("%s:%d", target, port)
+
+	// projection of the shared words for conformance with Dial.tla
+	var allocs, frees, fdOpen, expired, rstDone, ret, pdWaits int32
+	var curPd *pollDesc
+	var curOp unsafe.Pointer
+	var pdFreed bool
+	ownFd := -1
+	s.wrapHook = func(pt int32, obj unsafe.Pointer, a, b int64) {
+		if vTraceOnly(pt) || pt == vpPdWait {
+			if g := vGID(); g == s.mainGID || s.lookup(g) != nil {
+				switch pt {
+				case vpCacheAlloc:
+					atomic.AddInt32(&allocs, 1)
+				case vpCacheFreeable:
+					atomic.AddInt32(&frees, 1)
+					if obj == curOp {
+						pdFreed = true
+					}
+				case vpFdOpen:
+					if b == 5 {
+						ownFd, curPd, curOp, pdFreed = int(a), nil, nil, false
+						atomic.StoreInt32(&fdOpen, 1)
+						atomic.StoreInt32(&pdWaits, 0)
+					}
+				case vpFdClose:
+					if int(a) == ownFd {
+						ownFd = -1
+						atomic.StoreInt32(&fdOpen, 0)
+					}
+				case vpPdWait:
+					curPd = (*pollDesc)(obj)
+					curOp = unsafe.Pointer(curPd.operator)
+					atomic.AddInt32(&pdWaits, 1)
+				}
+			}
+		}
+		s.hook(pt, obj, a, b)
+	}
+	closed := func(c chan struct{}) int32 {
+		select {
+		case <-c:
+			return 1
+		default:
+			return 0
+		}
+	}
+	s.projFn = func() []int32 {
+		var wt, ct, opst int32
+		if curPd != nil {
+			wt, ct = closed(curPd.writeTrigger), closed(curPd.closeTrigger)
+			if !pdFreed {
+				opst = atomic.LoadInt32(&curPd.operator.state)
+			}
+		}
+		return []int32{atomic.LoadInt32(&allocs) - atomic.LoadInt32(&frees), atomic.LoadInt32(&fdOpen), wt, ct, opst,
+			atomic.LoadInt32(&expired), atomic.LoadInt32(&rstDone), atomic.LoadInt32(&ret)}
+	}
 	defer func() { verifHook = nil; vPdCtxDone = nil }()
 
-	var addr string
-	var cleanup func()
-	var ln net.Listener
-	switch sc.Peer {
-	case "listen":
-		ln, _ = net.Listen("tcp", "127.0.0.1:0")
-		addr = ln.Addr().String()
-		cleanup = func() { ln.Close() }
-	case "refuse":
-		l, _ := net.Listen("tcp", "127.0.0.1:0")
-		addr = l.Addr().String()
-		l.Close()
-		cleanup = func() {}
-	default:
-		addr, cleanup = vDropListener()
-	}
-	defer cleanup()
-	ev("Init", sc.Peer, 0, 0, "")
+	ev("Init", sc.Peer, map[bool]int{true: 1, false: 0}[vHasKind(kinds, "drop")], 0, "")
 	ctx, cancel := context.WithCancel(context.Background())
 	defer cancel()
-	var expired int32
 	vPdCtxDone = func() bool { return atomic.LoadInt32(&expired) == 1 }
-	ta, _ := net.ResolveTCPAddr("tcp", addr)
 	var conn *TCPConnection
 	var derr error
 	returned := false
@@ -132,7 +308,7 @@ func vRunDialControlled(sc *vDialScenario) ([]vOutEvent, map[string]interface{})
 				ev("Panic", "dialer", 0, 0, fmt.Sprint(x))
 			}
 		}()
-		conn, derr = DialTCP(&vDeadlineCtx{Context: ctx, exp: &expired}, "tcp", nil, &TCPAddr{TCPAddr: *ta})
+		conn, derr = (&dialer{}).dialTCP(&vDeadlineCtx{Context: ctx, exp: &expired}, "tcp", target)
 		returned = true
 		has := 0
 		if conn != nil {
@@ -144,18 +320,53 @@ func vRunDialControlled(sc *vDialScenario) ([]vOutEvent, map[string]interface{})
 			e = "err"
 			to = vErrTimeout(derr)
 		}
-		ev("DialRet", e, has, to, "")
+		switch {
+		case derr == nil:
+			atomic.StoreInt32(&ret, 1)
+		case to == 1:
+			atomic.StoreInt32(&ret, 3)
+		default:
+			atomic.StoreInt32(&ret, 2)
+		}
+		// the last attempt was still in progress against a peer that never answers: only the expiry can have ended it
+		waited := ""
+		if derr != nil && kinds[len(kinds)-1] == "drop" && atomic.LoadInt32(&pdWaits) > 0 && vLastAttempt(out) == len(kinds) {
+			waited = "waited"
+		}
+		mu.Lock()
+		out = append(out, vOutEvent{E: "DialRet", G: "dialer", K: e, N: has, M: to, Err: waited})
+		mu.Unlock()
 		if conn != nil {
 			conn.Close()
 		}
 	})
+	if len(rstLns) > 0 {
+		// the listener resets the connection: before, between or after the poller's write-ready callback and the dialer reading SO_ERROR
+		tries := 0
+		s.AddEnv("peerrst", 8, func() bool { return !returned && atomic.LoadInt32(&rstDone) == 0 && tries < 8 }, func() {
+			tries++
+			for _, ln := range rstLns {
+				ln.SetDeadline(time.Now().Add(10 * time.Millisecond))
+				c, err := ln.Accept()
+				if err != nil {
+					continue
+				}
+				c.(*net.TCPConn).SetLinger(0)
+				c.Close()
+				time.Sleep(200 * time.Microsecond) // the reset reaches the dialing socket (loopback: synchronously with close)
+				atomic.StoreInt32(&rstDone, 1)
+				ev("PeerRst", "", 0, 0, "")
+				return
+			}
+		})
+	}
 	if sc.Expire {
 		s.AddEnv("expire", 1, func() bool { return !returned }, func() {
 			atomic.StoreInt32(&expired, 1)
 			cancel()
 			ev("CtxExpired", "", 0, 0, "")
 		})
-		s.envs[len(s.envs)-1].lazy = sc.Peer != "drop"
+		s.envs[len(s.envs)-1].lazy = !vHasKind(kinds, "drop")
 	}
 	s.Run()
 	blocked := 0
@@ -165,11 +376,30 @@ func vRunDialControlled(sc *vDialScenario) ([]vOutEvent, map[string]interface{})
 		}
 	}
 	ev("Quiescent", "", blocked, 0, s.stuck)
-	info := map[string]interface{}{"id": sc.ID, "taken": s.taken, "gates": s.gateLog, "stalled": s.stalled, "stuck": s.stuck, "drift": s.drift}
+	info := map[string]interface{}{"id": sc.ID, "taken": s.taken, "gates": s.gateLog, "stalled": s.stalled, "stuck": s.stuck, "drift": s.drift, "proj": s.projLog, "kinds": kinds}
 	cancel()
 	atomic.StoreInt32(&expired, 1)
 	mp.close()
 	return out, info
+}
+
+func vHasKind(ks []string, k string) bool {
+	for _, x := range ks {
+		if x == k {
+			return true
+		}
+	}
+	return false
+}
+
+// the number of connect attempts (descriptors opened by socket()) so far
+func vLastAttempt(out []vOutEvent) (n int) {
+	for _, e := range out {
+		if e.E == "FdOpen" && e.K == "5" {
+			n++
+		}
+	}
+	return n
 }
 
 // vDeadlineCtx reports DeadlineExceeded (like a context with a timeout) once the scenario expired it
@@ -202,9 +432,11 @@ func vRunDialFree(sc *vDialScenario) ([]vOutEvent, map[string]interface{}) {
 		l.Close()
 	}
 	time.Sleep(2 * time.Millisecond)
-	var allocs, frees int32
+	var allocs, frees, pdWaits int32
 	verifHook = func(pt int32, obj unsafe.Pointer, a, b int64) {
 		switch pt {
+		case vpPdWait:
+			atomic.AddInt32(&pdWaits, 1)
 		case vpCacheAlloc:
 			atomic.AddInt32(&allocs, 1)
 		case vpCacheFreeable:
@@ -270,6 +502,77 @@ func vRunDialFree(sc *vDialScenario) ([]vOutEvent, map[string]interface{}) {
 		l, _ := net.Listen("tcp", "127.0.0.1:0")
 		addr = l.Addr().String()
 		l.Close()
+	case "rst":
+		// accepts and resets at once: the reset lands before, with or after the dialer's write-ready event
+		ln, err := net.Listen("tcp", "127.0.0.1:0")
+		if err != nil {
+			ev("SetupErr", "", 0, 0, err.Error())
+			return out, map[string]interface{}{"taken": []string{}}
+		}
+		addr = ln.Addr().String()
+		go func() {
+			for {
+				c, err := ln.Accept()
+				if err != nil {
+					return
+				}
+				c.(*net.TCPConn).SetLinger(0)
+				c.Close()
+			}
+		}()
+		cleanup = func() { ln.Close() }
+	case "multi":
+		// a host name with two addresses: nothing listens at the one tried first; the second drops SYNs or accepts
+		restore := vFakeResolver([][4]byte{{127, 0, 0, 1}, {127, 0, 0, 2}})
+		if restore == nil {
+			ev("SetupErr", "", 0, 0, "no resolver")
+			return out, map[string]interface{}{"taken": []string{}}
+		}
+		host := fmt.Sprintf("verif-two-homes-%d.test.", sc.Seed)
+		ctx, cancel := context.WithTimeout(context.Background(), 5*time.Second)
+		ips, err := net.DefaultResolver.LookupIPAddr(ctx, host)
+		cancel()
+		if err != nil || len(ips) != 2 || ips[1].IP.To4() == nil {
+			restore()
+			ev("SetupErr", "", 0, 0, fmt.Sprint("resolver: ", ips, err))
+			return out, map[string]interface{}{"taken": []string{}}
+		}
+		var second [4]byte
+		copy(second[:], ips[1].IP.To4())
+		var a2 string
+		var c2 func()
+		if sc.Second == "listen" {
+			ln, err := net.Listen("tcp", fmt.Sprintf("%s:0", ips[1].IP))
+			if err != nil {
+				restore()
+				ev("SetupErr", "", 0, 0, err.Error())
+				return out, map[string]interface{}{"taken": []string{}}
+			}
+			a2 = ln.Addr().String()
+			go func() {
+				for {
+					c, err := ln.Accept()
+					if err != nil {
+						return
+					}
+					go func() {
+						buf := make([]byte, 16)
+						n, _ := c.Read(buf)
+						if n > 0 {
+							c.Write(buf[:n])
+						}
+						time.Sleep(time.Millisecond)
+						c.Close()
+					}()
+				}
+			}()
+			c2 = func() { ln.Close() }
+		} else {
+			a2, c2 = vDropListenerAt(second)
+		}
+		_, port, _ := net.SplitHostPort(a2)
+		addr = host + ":" + port
+		cleanup = func() { c2(); restore() }
 	default:
 		addr, cleanup = vDropListener()
 	}
@@ -299,8 +602,15 @@ func vRunDialFree(sc *vDialScenario) ([]vOutEvent, map[string]interface{}) {
 			if to > 0 && el > to+time.Second {
 				late = 1
 			}
-			ev("DialRet", e, has, tf, fmt.Sprint(late))
-			if has == 1 && err == nil {
+			mu.Lock()
+			// (a connect that was still in progress against a peer that never answers can only have ended by the expiry)
+			waited := ""
+			if sc.Dials == 1 && atomic.LoadInt32(&pdWaits) > 0 && (sc.Peer == "drop" || sc.Peer == "multi" && sc.Second != "listen") {
+				waited = "waited"
+			}
+			out = append(out, vOutEvent{E: "DialRet", G: waited, K: e, N: has, M: tf, Err: fmt.Sprint(late)})
+			mu.Unlock()
+			if has == 1 && err == nil && sc.Peer != "rst" {
 				// usable in both directions
 				ok := 0
 				c.SetReadTimeout(time.Second)
@@ -310,6 +620,8 @@ func vRunDialFree(sc *vDialScenario) ([]vOutEvent, map[string]interface{}) {
 					}
 				}
 				ev("Echo", "", ok, 0, "")
+				c.Close()
+			} else if has == 1 && err == nil {
 				c.Close()
 			}
 		}(i)
